@@ -12,7 +12,8 @@ def main():
         mod.install()
     fn = getattr(mod, make)(*args)
     inc = "--noinc" not in sys.argv
-    ex = core.Explorer(replay_fn=lambda v: core.run_concrete(fn, v), validate_every=0 if "--noval" in sys.argv else 20, max_validate=50, incremental=inc)
+    dl = [int(a.split("=")[1]) for a in sys.argv if a.startswith("--dl=")]
+    ex = core.Explorer(replay_fn=lambda v: core.run_concrete(fn, v), validate_every=0 if "--noval" in sys.argv else 20, max_validate=50, incremental=inc, decision_limit=dl[0] if dl else 6000)
     t = time.time()
     if "--profile" in sys.argv:
         import cProfile, pstats
